@@ -43,6 +43,12 @@ where
 			// ASCII-only UTF-16 and UTF-32 text is also valid UTF-8 (with NUL
 			// bytes), so UTF-8 validity alone doesn't identify the encoding.
 			Ok(s) if matches!(Encoding::detect(&b), Encoding::Utf8) => {
+				// serde_yaml presents a stream without any documents as one
+				// empty document that fails to deserialize, where the chunker
+				// (and the YAML spec) see zero documents.
+				if chunker::stream_is_empty(s.as_bytes()) {
+					return Ok(());
+				}
 				for de in serde_yaml::Deserializer::from_str(s) {
 					output.transcode_from(de)?;
 				}
